@@ -3,6 +3,8 @@ package props
 import (
 	"encoding/json"
 	"fmt"
+	"os"
+	"path/filepath"
 	"strconv"
 	"strings"
 
@@ -254,6 +256,17 @@ func c10Case(c *mon.Ctx, aText, bText string, prof gen.Profile, kind int) {
 	for _, t := range targets {
 		c.Event()
 		d, e1 := jd.ReadPatchString(p)
+		if e1 == nil && c.Index%6 == 0 && c.WorkDir != "" {
+			fn := filepath.Join(c.WorkDir, "p.json")
+			if os.WriteFile(fn, []byte(p), 0o644) == nil {
+				df, ferr := jd.ReadPatchFile(fn)
+				c.Feature("file_reader_compared")
+				if ferr != nil || hunksEqual(Hunks(d), Hunks(df)) != "" {
+					c.Violation("ReadPatchFile and ReadPatchString read the same document differently", nil)
+					return
+				}
+			}
+		}
 		if e1 != nil {
 			c.Feature("jd_read_rejects")
 			if vname == "as-is" {
